@@ -204,6 +204,12 @@ func (g *progGen) path(f focus, maxSteps int) (string, focus) {
 			}
 			break
 		}
+		if cur.msg.Descriptor().FullName() == r4+"Reference" && g.r.p(0.35) {
+			// the synthesised reference string
+			parts = append(parts, "reference")
+			cur = focus{nil, kStr, cur.many}
+			break
+		}
 		name, child, many, ok := g.step(cur.msg)
 		if !ok {
 			break
